@@ -5,8 +5,8 @@ import random
 from fractions import Fraction as F
 
 from ..core import Case, Prop
-from ..scautil import (TOL, approx_equal, arr, brackets_of, exact, fmt_scale, fmt_vals, fr, mk, parse_rd,
-                       parse_scale, parse_vals, show_brackets, snap, snapshot, spec_build, spec_mr)
+from ..scautil import (KINDS, TOL, approx_equal, arr, brackets_of, exact, fmt_scale, fmt_vals, fr, mk, opt_str, parse_rd,
+                       parse_scale, parse_vals, show_brackets, show_meta, snap, snapshot, spec_build, spec_mr)
 import zlib
 
 from ..scautil import spec_la, spec_ma, spec_sa
@@ -57,6 +57,8 @@ def _shares(result, operand, before) -> bool:
             vals[0] = 9.0
     except Exception:
         pass
+    if before is None:
+        return False
     return snapshot(operand) != before or result is operand
 
 
@@ -71,6 +73,64 @@ def _real_node(kids):
             data[f"child{i}"] = {"brackets": [{"threshold": {"2000-01-01": {"value": float(a)}}, "rate": {"2000-01-01": {"value": float(b)}}}
                                               for a, b in spec_build(parse_scale(t))]}
     return ParameterNode("node", data=data)("2020-06-01")
+
+
+def _meta(opn, init, arg, alt, h):
+    """descriptive attributes (name, option, unit) of the result of each operation; `init` are the constructor
+    arguments, `arg` the new_name (mul0 / mul1) or the name of the first child (cts / ctsacc)"""
+    from openfisca_core import taxscales
+    kind = ["mr", "la", "ma", "sa"][h % 4] if opn in ("init", "copy") else "la" if opn == "tomarg" else "mr"
+    cls = getattr(taxscales, KINDS[kind])
+    name, option, unit = init
+    if alt:
+        s = cls(name, option, unit)
+    else:
+        kw = {k: v for k, v in (("name", name), ("option", option), ("unit", unit)) if v is not None or h % 3 == 0}
+        s = cls(**kw)
+    for t, r in ((0.0, 0.25), (100.0, 0.5)):
+        s.add_bracket(t, r)
+    before = show_meta(s)
+    flags = ""
+    if opn == "init":
+        res = s
+    elif opn == "copy":
+        res = s.copy()
+    elif opn == "sts":
+        res = s.scale_tax_scales(2.0)
+    elif opn == "inv":
+        res = s.inverse()
+    elif opn == "toavg":
+        res = s.to_average()
+    elif opn == "tomarg":
+        res = s.to_marginal()
+    elif opn == "avgrt":
+        res = s.to_average().to_marginal()
+    elif opn in ("mul0", "mul1"):
+        inplace = opn == "mul0"
+        if h % 2:
+            res = (s.multiply_rates(2.0, inplace, arg) if alt else s.multiply_rates(2.0, inplace=inplace, new_name=arg) if arg is not None or h % 3
+                   else s.multiply_rates(2.0, inplace=inplace))
+        else:
+            res = (s.multiply_thresholds(2.0, None, inplace, arg) if alt else s.multiply_thresholds(2.0, inplace=inplace, new_name=arg)
+                   if arg is not None or h % 3 else s.multiply_thresholds(2.0, inplace=inplace))
+        if inplace and res is not s:
+            flags += " !INPLACE"
+    elif opn in ("cts", "ctsacc"):
+        other = taxscales.MarginalRateTaxScale("other-child", "o", "u")
+        other.add_bracket(0.0, 0.125)
+        node = {} if arg is None else {arg: other, "zz-second": mk("mr", [(F(50), F(1, 8))])}
+        if alt and arg is None:
+            node = None
+        res = taxscales.combine_tax_scales(node, s) if opn == "ctsacc" else taxscales.combine_tax_scales(node)
+        if res is None:
+            return "none"
+        if opn == "ctsacc" and res is not s:
+            flags += " !INPLACE"
+    else:
+        raise ValueError("unknown meta op " + opn)
+    if res is not s and show_meta(s) != before:
+        flags += " !MUT"
+    return show_meta(res) + flags
 
 
 def impl(case: Case) -> str:
@@ -90,7 +150,12 @@ def impl(case: Case) -> str:
                 recv.add_tax_scale(o)
                 if before is not None and snapshot(o) != before:
                     flags = " !MUT"
-            return show_brackets(brackets_of(recv)) + "|" + _calc(recv, bases) + flags
+            out = show_brackets(brackets_of(recv)) + "|" + _calc(recv, bases)
+            ops = [(o, snapshot(o)) for o in others if o is not recv]
+            _shares(recv, recv, None)                  # change the receiver in every way ...
+            if any(snapshot(o) != b for o, b in ops):  # ... no operand may move
+                flags += " !SHARE"
+            return out + flags
         if op == "cts":
             from openfisca_core import taxscales
             init = None if f[2] == "none" else mk("mr", parse_scale(f[2]))
@@ -110,7 +175,29 @@ def impl(case: Case) -> str:
                 flags += " !MUT"
             if res is None:
                 return "none" + flags
-            return show_brackets(brackets_of(res)) + "|" + _calc(res, bases) + flags
+            out = show_brackets(brackets_of(res)) + "|" + _calc(res, bases)
+            _shares(res, res, None)
+            if [snapshot(c) for c in objs] != before:
+                flags += " !SHARE"
+            return out + flags
+        if op == "cb":
+            ins, rate, lo, hi, bases = parse_scale(f[2]), float(F(f[3])), f[4], f[5], parse_vals(f[6])
+            s = mk("mr", ins)
+            lo_v = None if lo == "~" else float(F(lo))
+            hi_v = None if hi == "~" else float(F(hi))
+            if alt and lo_v is not None and lo_v == int(lo_v):
+                lo_v = int(lo_v)                                  # the signature says int
+            if lo_v is None and hi_v is None:
+                s.combine_bracket(rate)
+            elif hi_v is None:
+                s.combine_bracket(rate, lo_v) if alt else s.combine_bracket(rate, threshold_low=lo_v)
+            elif lo_v is None:
+                s.combine_bracket(rate, threshold_high=hi_v)
+            else:
+                s.combine_bracket(rate, lo_v, hi_v) if alt else s.combine_bracket(rate, threshold_low=lo_v, threshold_high=hi_v)
+            return show_brackets(brackets_of(s)) + "|" + _calc(s, bases)
+        if op == "meta":
+            return _meta(f[2], [opt_str(t) for t in f[3:6]], opt_str(f[6]), alt, zlib.crc32(case.line.encode()) // 2)
         if op == "inverse":
             s = mk("mr", parse_scale(f[2]))
             xs = arr(parse_vals(f[3]))
@@ -142,6 +229,13 @@ def impl(case: Case) -> str:
                         regs[d].add_bracket(float(F(g[2])), float(F(g[3])))
                     elif name == "addts":
                         regs[d].add_tax_scale(regs[int(g[2])])
+                    elif name == "cb":
+                        kw = {}
+                        if g[3] != "~":
+                            kw["threshold_low"] = float(F(g[3]))
+                        if g[4] != "~":
+                            kw["threshold_high"] = float(F(g[4]))
+                        regs[d].combine_bracket(float(F(g[2])), **kw)
                     elif name == "multi":
                         regs[d].multiply_thresholds(float(F(g[2])))
                     elif name == "mulri":
@@ -348,6 +442,15 @@ def _hist_oracle(case, body, steps, bases):
                 else:
                     ths = sorted({t for t, _ in a + b})
                     want = [(t, _rate_at(a, t) + _rate_at(b, t)) for t in ths]
+            elif name == "cb":
+                cur, rate = regs[d], F(g[2])
+                lo = F(0) if g[3] == "~" else F(g[3])
+                hi = None if g[4] == "~" else F(g[4])
+                if cur is None or any(t < 0 for t, _ in cur) or lo < 0 or (hi is not None and hi <= lo):
+                    want = None
+                else:
+                    ths = sorted({t for t, _ in cur} | {lo} | ({hi} if hi is not None else set()))
+                    want = [(t, _rate_at(cur, t) + (rate if lo <= t and (hi is None or t < hi) else 0)) for t in ths]
             elif name in ("multi", "mulri"):
                 cur, k = regs[d], F(g[2])
                 want = None if cur is None or k <= 0 else [((t * k, r) if name == "multi" else (t, r * k)) for t, r in cur]
@@ -414,6 +517,21 @@ def oracle(case: Case, out: str):
         start = init if init is not None else [(F(0), F(0))]
         ops = [spec_build(parse_scale(t)) for t in kids if t != "x"]
         return _combine_oracle(case, body, start, ops, parse_vals(f[4]))
+    if op == "cb":
+        # combine_bracket(rate, lo, hi) adds `rate` on [lo, hi) ([lo, inf) without hi): the mechanism add_tax_scale is made of
+        brs, rate, bases = spec_build(parse_scale(f[2])), F(f[3]), parse_vals(f[6])
+        lo = F(0) if f[4] == "~" else F(f[4])
+        hi = None if f[5] == "~" else F(f[5])
+        if any(t < 0 for t, _ in brs) or lo < 0 or (hi is not None and hi <= lo):
+            return None
+        if body == "ERR":
+            return ("combine:raises", "combine_bracket raised on " + case.line[:200])
+        piece = [(lo, rate)] + ([(hi, F(0))] if hi is not None else [])
+        for b, v in zip(bases, _vals(body)):
+            want = spec_mr(brs, b) + spec_mr(piece, b)
+            if v != want:
+                return ("combine:bracket", f"{fmt_scale(brs)} combine_bracket({rate}, {lo}, {hi}): base {b} is taxed {v}, scale + rate on the bracket = {want}")
+        return None
     if op == "inverse":
         brs = spec_build(parse_scale(f[2]))
         if not brs or brs[0][0] != 0 or any(r >= 1 for _, r in brs):
@@ -485,8 +603,10 @@ def nontrivial(case: Case, out: str) -> bool:
     if out.startswith("ERR") or out.startswith("none"):
         return False
     f = case.line.split()
-    if f[1] in ("seq", "cts", "hist"):
+    if f[1] in ("seq", "cts", "hist", "cb"):
         return True
+    if f[1] == "meta":
+        return False
     src = f[2] if f[1] in ("inverse", "toavg", "avgrt", "tomarg", "copy") else f[-2]
     if src == "@":
         return True
@@ -650,6 +770,94 @@ def unary_cases(rng):
     return out
 
 
+def cb_cases(rng):
+    """combine_bracket called directly, with and without its optional arguments: lower / upper threshold existing in the
+    receiver, new, below the first, above the last; no upper threshold; an upper threshold 0 (falsy: treated as none),
+    equal to or below the lower one (nothing is added); an empty receiver"""
+    a = [] if rng.random() < 0.08 else nonneg_scale(rng, nmax=5)
+    ths = sorted({t for t, _ in a}) or [F(0)]
+    rate = F(rng.randint(-4, 16), 16)
+
+    def pick():
+        r = rng.random()
+        if r < 0.35:
+            return rng.choice(ths)
+        if r < 0.5:
+            return F(0)
+        if r < 0.6:
+            return ths[-1] + rng.randint(1, 300)
+        return F(rng.randint(0, int(ths[-1]) + 40))
+    lo = "~" if rng.random() < 0.25 else pick()
+    lo_v = F(0) if lo == "~" else lo
+    r = rng.random()
+    if r < 0.35:
+        hi = "~"
+    elif r < 0.8:
+        hi = lo_v + rng.choice([1, 2, 5, 50, rng.randint(1, 400)])
+        if rng.random() < 0.4:
+            up = [t for t in ths if t > lo_v]
+            hi = rng.choice(up) if up else hi
+    elif r < 0.88:
+        hi = F(0)
+    elif r < 0.94:
+        hi = lo_v
+    else:
+        hi = F(rng.randint(0, max(0, int(lo_v))))
+    silent = hi != "~" and hi <= lo_v
+    bases = bases30(rng, [spec_build(a), [(lo_v, rate)] + ([(hi, rate)] if hi != "~" else [])])
+    return [_mk("cb", fmt_scale(a), fr(rate), lo if lo == "~" else fr(lo), hi if hi == "~" else fr(hi), fmt_vals(bases),
+                claimed=not silent, tags=("lo-default" if lo == "~" else "lo", "hi-none" if hi == "~" else "hi-falsy" if hi == 0 else
+                                          "hi<=lo" if silent else "hi"))]
+
+
+META_NAMES = ["~", "@e", "scale", "bareme", "impot-sur-le-revenu", "a'"]
+META_OPTS = ["~", "~", "main-option", "@e", "contrib"]
+META_UNITS = ["~", "currency", "/1", "@e"]
+
+
+def meta_cases(rng):
+    """descriptive attributes through every operation (outside the statement: the oracle is silent, the model answers)"""
+    opn = rng.choice(["init", "copy", "sts", "inv", "toavg", "tomarg", "avgrt", "mul0", "mul1", "mul1", "mul1", "cts", "ctsacc"])
+    arg = "~"
+    if opn in ("mul0", "mul1"):
+        arg = rng.choice(["~", "~", "renamed", "@e", "new-name"]) if opn == "mul1" else rng.choice(["~", "~", "~", "renamed"])
+    elif opn in ("cts", "ctsacc"):
+        arg = rng.choice(["~", "first-child", "bareme", "a"])
+    return [_mk("meta", opn, rng.choice(META_NAMES), rng.choice(META_OPTS), rng.choice(META_UNITS), arg, claimed=False, tags=(opn,))]
+
+
+def frac_scale(rng, nonneg, nmax=5):
+    """thresholds on the quarter lattice (also strictly between -1 and 0, 0 and 1), rates in 2^-4 Z"""
+    n = rng.randint(1, nmax)
+    lo = 0 if nonneg else -12
+    ths = rng.sample(range(lo, 40), min(n, 40 - lo)) if rng.random() < 0.6 else [rng.randint(lo, 400) for _ in range(n)]
+    if rng.random() < 0.5 and not nonneg:
+        ths[0] = rng.choice([-1, -2, -3])                     # -1/4, -1/2, -3/4: strictly between -1 and 0
+    if rng.random() < 0.3:
+        ths[-1] = 0
+    return [(F(t, 4), F(rng.choice([0, 1, 2, 4, 8, rng.randint(-4, 15)]), 16)) for t in ths]
+
+
+def frac_cases(rng):
+    """fractional thresholds: the conversions and the combination on scales whose first threshold lies strictly
+    between two integers (in particular between -1 and 0, and between 0 and 1)"""
+    out = []
+    nonneg = rng.random() < 0.5
+    a = frac_scale(rng, nonneg)
+    brs = spec_build(a)
+    bases = bases30(rng, [brs])
+    out.append(_mk("avgrt", fmt_scale(a), fmt_vals(bases), claimed=nonneg, tags=("frac",)))
+    out.append(_mk("toavg", fmt_scale(a), claimed=nonneg, tags=("frac",)))
+    b = frac_scale(rng, nonneg, nmax=3)
+    out.append(_mk("seq", fmt_scale(a) + ";" + fmt_scale(b), fmt_vals(bases30(rng, [brs, spec_build(b)])), claimed=nonneg, tags=("frac",)))
+    if rng.random() < 0.5:
+        c = [(t, min(r, F(15, 16))) for t, r in spec_build(frac_scale(rng, True))]
+        c[0] = (F(0), c[0][1])
+        c = spec_build(c)
+        out.append(_mk("inverse", fmt_scale(c), fmt_vals(bases30(rng, [c])), claimed=all(r < 1 for _, r in c), tags=("frac",)))
+    return out
+
+
 HIST_K = [F(1, 2), F(3, 2), F(2), F(3), F(1, 4), F(5, 4)]
 
 
@@ -693,7 +901,7 @@ def hist_cases(rng):
 
     def mutate(i):
         """one in-place operation on r_i"""
-        opn = rng.choice(["mulri", "multi", "addb", "addts"] if exact[i] else ["mulri", "multi"])
+        opn = rng.choice(["mulri", "multi", "addb", "addts", "cb"] if exact[i] else ["mulri", "multi"])
         if opn in ("mulri", "multi") and nscal[i] >= 3:
             opn = "addb" if exact[i] else None
         if opn is None:
@@ -703,6 +911,11 @@ def hist_cases(rng):
         elif opn == "addts":
             o = pick(lambda j: exact[j])
             steps.append(f"addts_{i}_{o}")
+        elif opn == "cb":
+            lo = rng.choice(["~", 0, 5, 50, 100, rng.randint(0, 1200)])
+            lo_v = 0 if lo == "~" else lo
+            hi = rng.choice(["~", "~", lo_v + 50, lo_v + rng.randint(1, 600)])
+            steps.append(f"cb_{i}_{fr(F(rng.randint(-2, 8), 16))}_{lo}_{hi}")
         else:
             steps.append(f"{opn}_{i}_{fr(rng.choice(HIST_K))}")
             nscal[i] += 1
@@ -782,6 +995,12 @@ def generate(rng: random.Random, tier: str):
         if rng.random() < 0.25:
             out += unclaimed_cases(rng)
         out += hist_cases(rng)
+        if rng.random() < 0.5:
+            out += cb_cases(rng)
+        if rng.random() < 0.3:
+            out += meta_cases(rng)
+        if rng.random() < 0.15:
+            out += frac_cases(rng)
     return out
 
 
@@ -815,6 +1034,13 @@ def enumerate_thorough():
             out.append(_mk("mulr", k, t, bases, tags=("enum",)))
             out.append(_mk("sts", k, t, bases, tags=("enum",)))
         out.append(_mk("cts", "none", t + ";x;" + fmt_scale(scales[(len(s) * 7) % len(scales)] or s), bases, tags=("enum",)))
+    # combine_bracket on every scale (the empty one included) x every lower / upper threshold of the grid 0..7, with the defaults
+    for s in scales:
+        t = fmt_scale(s)
+        for lo in ["~", 0, 1, 2, 3, 5, 6, 7]:
+            for hi in ["~", 0, 1, 2, 3, 4, 6, 7]:
+                lo_v = 0 if lo == "~" else lo
+                out.append(_mk("cb", t, "1/4", lo, hi, bases, claimed=hi == "~" or hi > lo_v, tags=("enum",)))
     return out
 
 
@@ -834,6 +1060,23 @@ def corpus():
         _mk("mult", "1/8", 2, "0:1/16,1:1/4,3:1/2,17:1,98:1/8", "0,1/8,1/2,2,13", tags=("decimals2", "ties")),
         _mk("mult", "1/4", 1, "0:1/16,1:1/4,3:1/2,49:1,5:1/8", "0,1/4,1,2,13", tags=("decimals1", "ties")),
         _mk("mult", "9/8", 1, "0:1/16,100:1/4,200:1/2", "0,112,113,226", tags=("decimals1",)),
+        _mk("cb", "0:1/4,100:1/2", "1/8", "~", "~", b, tags=("defaults",)),
+        _mk("cb", "0:1/4,100:1/2", "1/8", "~", "75", b, tags=("lo-default",)),
+        _mk("cb", "50:1/4,100:1/2", "1/8", "25", "75", b),
+        _mk("cb", "-", "1/8", "25", "~", b, tags=("empty-receiver",)),
+        # an upper threshold below EVERY threshold (only possible on a direct call, with hi < lo): it is inserted with rate 0 and nothing is added
+        _mk("cb", "50:1/4,100:1/2", "1/8", "60", "20", b, claimed=False, tags=("hi-below-all",)),
+        _mk("cb", "50:1/4", "1/8", "70", "10", b, claimed=False, tags=("hi-below-all",)),
+        _mk("cb", "50:1/4,100:1/2", "1/8", "100", "30", b, claimed=False, tags=("hi-below-all",)),
+        _mk("cb", "7:1/8,9:1/4", "-1/16", "8", "3", b, claimed=False, tags=("hi-below-all",)),
+        _mk("toavg", "-1/2:1/8,3:1/4", claimed=False, tags=("frac", "first-threshold-in-(-1,0)")),
+        _mk("avgrt", "1/2:1/8,3:1/4", b, tags=("frac",)),
+        _mk("meta", "mul1", "scale", "main-option", "currency", "renamed", claimed=False),
+        _mk("meta", "mul1", "scale", "main-option", "currency", "~", claimed=False),
+        _mk("meta", "inv", "scale", "main-option", "currency", "~", claimed=False),
+        _mk("meta", "tomarg", "scale", "main-option", "currency", "~", claimed=False),
+        _mk("meta", "cts", "~", "~", "~", "first-child", claimed=False),
+        _mk("hist", "new_0_0:1/4,100:1/2;cb_0_1/8_~_~;cb_0_1/8_50_150;copy_1_0;cb_1_1/4_~_75;calc_0;cb_2_1/8_10_~", "0,60,200", tags=("combine-bracket",)),
         _mk("hist", "new_0_0:1/4,100:1/2;sts_1_0_3/2;mulri_0_2;sts_2_0_3/2;copy_3_2;addts_3_1;calc_3;inv_1_0;avgrt_2_3;addb_0_50_1/8", "0,60,200",
             tags=("same-op-after-mutation",)),
     ]
@@ -859,12 +1102,26 @@ PROP = Prop(
                 "it raises (C09_inverse_errors); threshold scaling by k > 0 and rate scaling by any k (C09_mul_thresholds, C09_scale_tax_scales, "
                 "C09_mul_rates); to_average().to_marginal() returns the same scale, preceded by (0,0) when the first threshold is positive, and "
                 "taxes identically with any factor and rounding (C09_average_marginal_roundtrip, repaired to_average); copy (C09_copy). "
+                "Round 2: combine_bracket(rate, lo, hi) adds rate on [lo, hi) for every sorted receiver (C09_combine_bracket); the thresholds of a "
+                "combination are those of the two scales (C09_combine_thresholds); combination is commutative and associative as a tax function "
+                "(C09_combine_comm, C09_combine_assoc); multiply_thresholds with decimals rounds each product, keeps rates and (weak) order, and the "
+                "result still computes its definition (C09_mul_thresholds_rounded); the inverse round trip on vectors (C09_inverse_vector); the "
+                "descriptive attributes name / option / unit through every operation (C09_meta); calc with threshold factor k = f + eps is the textbook "
+                "calc through the change of unit x -> k x (C09_calc_factor_scaling), hence the inverse law for every eps and factor, the code's "
+                "2^-52 included (C09_inverse_any_factor); what to_average produces: thresholds 0 and those of the scale, average rate x threshold = "
+                "tax at the threshold, last rate on the Inf bracket (C09_to_average_def). "
                 "Carried by the correspondence only: non-mutation of operands and independence of copies (deep snapshots before/after every "
                 "operation), equality of in-place and new-scale variants, IEEE rounding."),
     exhaustive_note=("thorough: all 65 scales with <= 3 brackets over thresholds {0,1,3,6} x rates {1/8,1/2}: the 4225 ordered pairs for "
                      "add_tax_scale and every unary operation on each scale, bases -1..8 step 1/4"),
     extra_lean_files=["OFCore/TaxScale.lean", "OFCore/Lemmas/TaxScale.lean"],
-    rule=("lines `sca seq|cts|inverse|mult|mulr|sts|toavg|avgrt|tomarg|copy|copyk …` (cts on dict nodes and, on half of the lines, "
+    rule=("lines `sca seq|cts|cb|inverse|mult|mulr|sts|toavg|avgrt|tomarg|copy|copyk|meta …` (round 2: `cb` = combine_bracket called directly, "
+          "with and without its optional arguments, lower / upper threshold existing, new, below the first, above the last, upper threshold "
+          "falsy / not above the lower one, empty receiver; `meta` = name / option / unit of the result of every operation, constructor and "
+          "new_name arguments None / empty / given, positional and by keyword (oracle silent); scales with thresholds on the quarter lattice, "
+          "also strictly between -1 and 0 and between 0 and 1, for the conversions, the combination and the inverse; after seq / cts the result "
+          "is changed through the whole API and no operand may move; "
+          "cts on dict nodes and, on half of the lines, "
           "on genuine ParameterNodeAtInstant objects; operands reused as the same object, the receiver added to itself; optional "
           "arguments positional / by keyword, integer factors as int; every result is afterwards modified through the whole API to "
           "show that it shares nothing with its operand) over marginal-rate scales of 1..6 brackets with "
